@@ -771,6 +771,14 @@ func (c *Connection) write(ctx context.Context, msg Message) error {
 		if req, ok := msg.(*Request); ok && !req.IsCall() && s.outgoingNotifications > 0 {
 			return
 		}
+		if _, ok := msg.(*Response); ok && s.readErr == nil && s.writeErr == nil {
+			// Close lets the handlers that are running finish, and the peer may be
+			// waiting for their responses: if it needs one of them before it can
+			// answer a call of ours that Close is waiting for, dropping the response
+			// would leave both sides waiting forever. Nothing is wrong with the
+			// connection, so keep writing responses while it drains.
+			return
+		}
 		err = s.shuttingDown(ErrServerClosing)
 	})
 	if err == nil {
